@@ -58,7 +58,7 @@ def _three_node():
 
 def cases_of(desc):
     if desc["kind"] == "gen":
-        return [(i, daggen.case_from_seed(desc["seed"], i, p_falsy=0.3 if i % 2 else 0.0)) for i in range(desc["start"], desc["start"] + desc["n"])]
+        return [(i, daggen.case_from_seed(desc["seed"], i, p_falsy=0.3 if i % 2 else 0.0, p_picker=0.5 if i % 3 == 2 else 0.0)) for i in range(desc["start"], desc["start"] + desc["n"])]
     if desc["kind"] == "literal":
         return [(0, desc["case"])]
     ex = _three_node()
@@ -122,6 +122,8 @@ def check_call(v, case, pipeline, log, out, K, form, ctx, expect=None):
     if form == "full" and out not in got:
         v.bad("full_output:requested-missing", "requested output absent from full_output dict", **w)
         return None
+    if isinstance(val, dict) and isinstance(out, tuple):  # a function with a custom output_picker returns {name: value}
+        val = tuple(val.get(n) for n in out)
     if val != exp["value"] and not (isinstance(val, (tuple, list)) and tuple(val) == exp["value"]):
         v.bad(f"value/{ctx}/{form}", f"value differs: got {str(val)[:300]} expected {str(exp['value'])[:300]}", **w)
     got_calls = [c["f"] for c in calls]
@@ -150,7 +152,7 @@ def check_call(v, case, pipeline, log, out, K, form, ctx, expect=None):
                 key = tuple(pr["outs"])
                 if len(key) > 1 and key in got:
                     try:
-                        ok = got[key][pr["outs"].index(name)] == val
+                        ok = (got[key][name] if isinstance(got[key], dict) else got[key][pr["outs"].index(name)]) == val
                     except Exception:  # noqa: BLE001
                         ok = False
             if not ok:
